@@ -7,6 +7,7 @@ If a piece of source no longer has a recognisable shape the corresponding table 
 from __future__ import annotations
 
 import ast
+import re
 import json
 from pathlib import Path
 
@@ -825,3 +826,106 @@ def linalg_obligation_source():
     L.append("example : ∀ k n : Rat, Generated.subR0 (k + 1) n = (k + 1) * n ∧ Generated.subR1 (k + 1) n = (k + 1) * n + n ∧ Generated.subC0 (k + 1) n = k * n ∧ Generated.subC1 (k + 1) n = k * n + n := by\n"
              "  intro k n; refine ⟨?_, ?_, ?_, ?_⟩ <;> simp only [Generated.subR0, Generated.subR1, Generated.subC0, Generated.subC1] <;> ring1")
     return "\n".join(L) + "\n"
+
+
+# ------------------------------------------------------------------ C13 poisson_entropy: stop rule and mask read off the source
+
+ENT = "causationentropy/core/information/entropy.py"
+
+
+def poisson_shape():
+    """The while-condition (two tolerances, both reductions, both comparison directions), the update of `small` (guard and reduction)
+    and the zero-probability mask of `poisson_entropy`, read off the CURRENT source. Recognised shape only; else Untranslatable."""
+    fn = _funcs(_parse(ENT)).get("poisson_entropy")
+    if fn is None:
+        raise Untranslatable("poisson_entropy not found")
+    loops = [st for st in fn.body if isinstance(st, ast.While)]
+    if len(loops) != 1:
+        raise Untranslatable("no single while loop")
+    w = loops[0]
+    t = w.test
+    if not (isinstance(t, ast.BoolOp) and isinstance(t.op, ast.And) and len(t.values) == 2 and all(isinstance(v, ast.Compare) and len(v.ops) == 1 for v in t.values)):
+        raise Untranslatable("loop condition is not `A and B`")
+
+    def red(node):
+        """np.max(x) / np.min(x) / x.max() -> (reduction, unparse(x))"""
+        if isinstance(node, ast.Call) and len(node.args) == 1 and not node.keywords and _is_np_attr(node.func, ("max", "min", "amax", "amin")):
+            return node.func.attr.replace("a", "") if node.func.attr in ("amax", "amin") else node.func.attr, ast.unparse(node.args[0])
+        if isinstance(node, ast.Call) and not node.args and isinstance(node.func, ast.Attribute) and node.func.attr in ("max", "min"):
+            return node.func.attr, ast.unparse(node.func.value)
+        return None
+
+    def lit_text(node):
+        if isinstance(node, ast.Constant) and isinstance(node.value, float):
+            return repr(node.value)
+        raise Untranslatable("tolerance is not a float literal")
+
+    out = {}
+    for v in t.values:
+        op = _CMP.get(type(v.ops[0]))
+        left, right = v.left, v.comparators[0]
+        r = red(left)
+        if r is not None and op in ("gt", "ge"):
+            if "mass" in out:
+                raise Untranslatable("two reductions in the loop condition")
+            psum_name = re.fullmatch(r"1 - (\w+)", r[1])
+            if not psum_name:
+                raise Untranslatable(f"first condition reduces {r[1]}")
+            out["mass"] = (r[0], op, lit_text(right)); out["psum"] = psum_name.group(1)
+        elif isinstance(left, ast.Name) and op in ("gt", "ge"):
+            out["small"] = (left.id, op, lit_text(right))
+        else:
+            raise Untranslatable(f"loop condition part {ast.unparse(v)}")
+    if "mass" not in out or "small" not in out:
+        raise Untranslatable("loop condition parts")
+    small = out["small"][0]
+    prob = counter = None
+    upd = None
+    for st in w.body:
+        s_ = ast.unparse(st)
+        if isinstance(st, ast.Assign) and isinstance(st.targets[0], ast.Name) and isinstance(st.value, ast.Call) and ast.unparse(st.value.func).endswith("poisson.pmf"):
+            prob = st.targets[0].id
+            if len(st.value.args) != 2 or not all(isinstance(a, ast.Name) for a in st.value.args):
+                raise Untranslatable("pmf call")
+            counter, rates = st.value.args[0].id, st.value.args[1].id
+        if isinstance(st, ast.If) and not st.orelse and len(st.body) == 1 and isinstance(st.body[0], ast.Assign) and ast.unparse(st.body[0].targets[0]) == small:
+            upd = st
+    if prob is None or upd is None:
+        raise Untranslatable("pmf assignment / update of small not found")
+    if f"{out['psum']} = {out['psum']} + {prob}" not in [ast.unparse(s2) for s2 in w.body] and f"{out['psum']} += {prob}" not in [ast.unparse(s2) for s2 in w.body]:
+        raise Untranslatable("mass accumulation")
+    g = upd.test
+    if not (isinstance(g, ast.Compare) and len(g.ops) == 1 and isinstance(g.left, ast.Name) and g.left.id == counter and red(g.comparators[0])):
+        raise Untranslatable("guard of the update of small")
+    gr = red(g.comparators[0]); sr = red(upd.body[0].value)
+    if sr is None or sr[1] != prob or gr[1] != rates:
+        raise Untranslatable("update of small is not a reduction of the current pmf values")
+    out["guard"] = (_CMP.get(type(g.ops[0])), gr[0]); out["small_red"] = sr[0]
+    # mask: np.where(P > 0, P * np.log(P), 0.0)
+    where = [n_ for n_ in ast.walk(fn) if isinstance(n_, ast.Call) and _is_np_attr(n_.func, ("where",)) and len(n_.args) == 3]
+    if len(where) != 1:
+        raise Untranslatable("mask")
+    c, a, b = where[0].args
+    if not (isinstance(c, ast.Compare) and len(c.ops) == 1 and isinstance(c.left, ast.Name) and isinstance(c.comparators[0], ast.Constant) and c.comparators[0].value == 0
+            and ast.unparse(a) in (f"{c.left.id} * np.log({c.left.id})", f"np.log({c.left.id}) * {c.left.id}") and isinstance(b, ast.Constant) and b.value == 0):
+        raise Untranslatable("mask is not np.where(P > 0, P * np.log(P), 0.0)")
+    out["mask"] = _CMP.get(type(c.ops[0]))
+    return out
+
+
+def _is_np_attr(node, names):
+    return isinstance(node, ast.Attribute) and node.attr in names and isinstance(node.value, ast.Name) and node.value.id in ("np", "numpy")
+
+
+def poisson_obligation_source():
+    o = poisson_shape()
+    return ("import CEModel.Poisson\n/-! GENERATED from /repo by harness/gen_tables.py -- do not edit. -/\nnamespace Generated\n"
+            f"def massRule : String × String × String := ({_lstr(o['mass'][0])}, {_lstr(o['mass'][1])}, {_lstr(o['mass'][2])})\n"
+            f"def smallRule : String × String := ({_lstr(o['small'][1])}, {_lstr(o['small'][2])})\n"
+            f"def smallUpdate : String × String × String := ({_lstr(o['guard'][0])}, {_lstr(o['guard'][1])}, {_lstr(o['small_red'])})\n"
+            f"def mask : String := {_lstr(o['mask'])}\nend Generated\n"
+            "/-- the model's loop (`CE.Poisson.condB`: `tol1 < maxL (1 - psum) && tol2 < small`, run by the driver with 1e-16 and 1e-75;\n"
+            "`stepSt`: `small := if cast i < maxL lams then small else maxL prob`, i.e. updated iff `i >= max(lambdas)` with the LARGEST pmf value;\n"
+            "`plogp`: `if 0 < p`) is the source's: strict comparisons, maxima in all three places, those two tolerances -/\n"
+            'example : Generated.massRule = ("max", "gt", "1e-16") ∧ Generated.smallRule = ("gt", "1e-75") ∧\n'
+            '    Generated.smallUpdate = ("ge", "max", "max") ∧ Generated.mask = "gt" := by decide\n')
